@@ -8,6 +8,7 @@ import PasfmtModel.Proofs.SpacingLayout
 import PasfmtModel.Proofs.SpacingLayoutW
 import PasfmtModel.Model.Pipeline
 import PasfmtModel.Generated.Inventory
+import PasfmtModel.Proofs.LayoutFull
 
 namespace Pasfmt.C06
 
@@ -79,5 +80,103 @@ theorem layout_is_read_only_at_known_sites :
       "newlines_before@core/src/rules/optimising_line_formatter/mod.rs:format",
       "newlines_before@core/src/rules/optimising_line_formatter/mod.rs:reconstruct_solution",
       "newlines_before@core/src/rules/token_spacing.rs:max_one_either_side"] := rfl
+
+/-- **The parse does not depend on where the lines break outside assembler code** — for the exact model of the
+    parser (control flow included) and the three consolidators: the line-break flags are read by
+    `parse_asm_instructions` only, which runs after an `asm` keyword, so two scans with the same token types that agree
+    on the flags after the first `asm` keyword give the same logical lines and the same final token types.  (By
+    construction of `parseFileMasked`; that the mask changes nothing is checked by the `pfull` and `full`
+    correspondences on every case.) -/
+theorem parse_layout_independent (raw1 raw2 : List RawTok)
+    (hflags : maskFlags false (raw1.map fun t => (t.kind, wsHasBreak t.ws)) =
+      maskFlags false (raw2.map fun t => (t.kind, wsHasBreak t.ws))) :
+    parseAndConsolidate raw2 = parseAndConsolidate raw1 :=
+  parseAndConsolidate_layout raw1 raw2 hflags
+
+/-- in particular: a file without an `asm` keyword parses the same in every layout -/
+theorem parse_layout_independent_no_asm (raw1 raw2 : List RawTok)
+    (hk : raw1.map (·.kind) = raw2.map (·.kind)) (hno : ∀ t ∈ raw1, t.kind ≠ .rKeyword .kAsm) :
+    parseAndConsolidate raw2 = parseAndConsolidate raw1 := by
+  apply parseAndConsolidate_layout
+  have key : ∀ (a b : List RawTok), a.map (·.kind) = b.map (·.kind) → (∀ t ∈ a, t.kind ≠ .rKeyword .kAsm) →
+      maskFlags false (a.map fun t => (t.kind, wsHasBreak t.ws)) = maskFlags false (b.map fun t => (t.kind, wsHasBreak t.ws)) := by
+    intro a
+    induction a with
+    | nil => intro b hb _; cases b with
+      | nil => rfl
+      | cons _ _ => simp at hb
+    | cons x r ih =>
+      intro b hb hn
+      cases b with
+      | nil => simp at hb
+      | cons y r' =>
+        simp only [List.map_cons, List.cons.injEq] at hb
+        have hx : x.kind ≠ .rKeyword .kAsm := hn x (by simp)
+        have hb1 : (x.kind == RawTokenType.rKeyword .kAsm) = false := by simpa using hx
+        have hb2 : (y.kind == RawTokenType.rKeyword .kAsm) = false := by rw [← hb.1]; exact hb1
+        simp only [List.map_cons, maskFlags, Bool.false_and, Bool.false_or, hb1, hb2, hb.1]
+        rw [ih r' hb.2 (fun t ht => hn t (by simp [ht]))]
+  exact key raw1 raw2 hk hno
+
+/-- **The search of the line wrapper reads a token through its type and the length of its last line only, and the
+    configuration through the width limit, the `begin` style and the two indentation widths only** — by construction
+    of `searchSolve`/`searchInit` (`FTok.sview`, `Config.searchCfg`; tied to the code by the `wsearch` correspondence):
+    two token states with the same views get the same solution for every line. -/
+theorem search_reads_views_only (st : SearchState) (ft ft' : FT) (i : Nat) (h : ft.map FTok.sview = ft'.map FTok.sview) :
+    searchSolve st ft i = searchSolve st ft' i := by
+  unfold searchSolve; rw [h]
+
+/-- **C06 for the closed model of the whole formatter** (`formatFull`: scanner, parser with its control flow,
+    consolidators, ignore marks, token rules, wrapper stage with the search inside, reconstructor).  Let `s1` be
+    formatted to `out`.  If `s2` scans to the same token types and texts in another layout — every gap empty in both
+    or in neither, a blank line in both or in neither, identical bytes in front of tokens kept verbatim
+    (`SameLayout`), and the same line-break flags after the first `asm` keyword (`hflags`) — then `s2` is formatted to
+    the same `out`, byte for byte, provided that
+    * no token is a line comment sharing its line with code (`hni`; the token after such a comment is not given a
+      spacing by `TokenSpacing`, so the model's wrapper is handed the input's value; the wrapper then never uses it,
+      which is not proved — hence `_partial`), and
+    * in the run on `s1` every token is kept verbatim, or is the end-of-file token written by the end-of-file rule, or
+      lies in a line for which the wrapper found a solution in its first phase (`hall`, decidable, evaluated by the
+      driver on every case of the relayout stream).  It fails exactly where the wrapper reports "no solution" for a
+      line, which keeps that line's original layout: known finding F34.
+    No contract on parser or wrapper is assumed. -/
+theorem C06_format_full_partial (cfg : Config) (alnum : Bytes → Bool) (s1 s2 : Bytes) (raw1 raw2 : List RawTok)
+    (po : ParserOut) (ftz : FT) (sols : List (Nat × Nat × Sol))
+    (hl1 : lex s1 = some raw1) (hl2 : lex s2 = some raw2)
+    (hpo : parseAndConsolidate raw1 = some po)
+    (hflags : maskFlags false (raw1.map fun t => (t.kind, wsHasBreak t.ws)) =
+      maskFlags false (raw2.map fun t => (t.kind, wsHasBreak t.ws)))
+    (hsame : SameLayout po.kinds (preWrap (preO alnum po) raw1).1 raw1 raw2)
+    (hni : ∀ t ∈ retype raw1 po.kinds, t.kind ≠ .tComment .cInlineLine)
+    (hw : wrapStageFull cfg (preWrap (preO alnum po) raw1).2.1 (preWrap (preO alnum po) raw1).2.2 = some (ftz, sols))
+    (hall : allWritten (preWrap (preO alnum po) raw1).2.1
+      (writtenBefore (preWrap (preO alnum po) raw1).2.1 (preWrap (preO alnum po) raw1).2.2)
+      (preWrap (preO alnum po) raw1).2.2.length sols = true) :
+    ∃ out, formatFull cfg alnum s1 = some out ∧ formatFull cfg alnum s2 = some out := by
+  obtain ⟨h1, h2⟩ := formatTokensFull_layout cfg alnum raw1 raw2 po ftz sols hpo hflags hsame hni hw hall
+  exact ⟨_, by unfold formatFull; rw [hl1]; exact h1, by unfold formatFull; rw [hl2]; exact h2⟩
+
+/-- the wrapper stage alone, with the search inside: two states that agree up to the layout of the input (`RelW`)
+    receive the same solutions, and once every token is written they are equal up to the leading whitespace of tokens
+    that are not kept verbatim — which the reconstructor never emits -/
+theorem wrapper_stage_layout_independent (cfg : Config) (lines : List Line) (W0 : Nat → Bool) (ft ft' ftz : FT)
+    (sols : List (Nat × Nat × Sol)) (h : RelW (fun j => W0 j = true) ft ft')
+    (h1 : wrapStageFull cfg lines ft = some (ftz, sols)) (hall : allWritten lines W0 ft.length sols = true) :
+    ∃ ftz', wrapStageFull cfg lines ft' = some (ftz', sols) ∧
+      reconstruct cfg.settings ftz = reconstruct cfg.settings ftz' := by
+  obtain ⟨ftz', hw, hr⟩ := wrapStageFull_layout cfg lines W0 ft ft' ftz sols h h1 hall
+  exact ⟨ftz', hw, reconGo_relT _ _ _ _ hr⟩
+
+/-- **C06 for the closed model, decided per pair.**  `layoutPremisesB cfg alnum s1 s2` (Model/LayoutCheck.lean) is the
+    conjunction of the premises of `C06_format_full_partial` as one executable Boolean — same token types and texts,
+    `sameLayoutB` for the gaps, equal line-break flags after the first `asm` keyword, no line comment sharing its line
+    with code, every token written in the first wrapping phase.  Whenever it answers `true`, the two inputs are
+    formatted to the same bytes.  The driver evaluates it on every pair of the relayout stream (`full2`, field
+    `info_c06`: how often the premises hold, and which one fails first otherwise) next to the comparison of both model
+    outputs with the real formatter's. -/
+theorem C06_format_full_checked (cfg : Config) (alnum : Bytes → Bool) (s1 s2 : Bytes)
+    (h : layoutPremisesB cfg alnum s1 s2 = true) :
+    ∃ out, formatFull cfg alnum s1 = some out ∧ formatFull cfg alnum s2 = some out :=
+  formatFull_layout_checked cfg alnum s1 s2 h
 
 end Pasfmt.C06
